@@ -35,9 +35,18 @@ Ltac guard_cases :=
   | |- context [Req_EM_T ?x 0] => let E := fresh "E" in destruct (Req_EM_T x 0) as [E|E]; [try rewrite !E|]
   end.
 
+(* arguments of sin / cos written in another (ring-equal) way, e.g. phi * n *)
+Ltac norm_trig n phi :=
+  repeat match goal with
+  | |- context [sin ?x] =>
+      lazymatch x with INR n * phi => fail | _ => replace x with (INR n * phi) by ring end
+  | |- context [cos ?x] =>
+      lazymatch x with INR n * phi => fail | _ => replace x with (INR n * phi) by ring end
+  end.
+
 (* ---------------- 2-d ---------------- *)
 Lemma dist2d_step_eq phi n ab acc : dist2d_step phi n ab acc = acc + w_one n * term2 phi n ab.
-Proof. unfold dist2d_step, term2, w_one. cbv zeta. guard_cases; ring. Qed.
+Proof. unfold dist2d_step, term2, w_one. cbv zeta. guard_cases; norm_trig n phi; ring. Qed.
 
 (* dist2d_series: R(phi) = R0 (1 + sum_n (a_n sin n phi + b_n cos n phi)), n counted from 1 *)
 Lemma dist2d_series radius phi l : dist2d radius phi l = radius * (1 + series2 w_one phi 1 l).
@@ -47,7 +56,7 @@ Proof.
 Qed.
 
 Lemma curv2d_step_eq phi n ab acc : curv2d_step phi n ab acc = acc + - (w_curv n * term2 phi n ab).
-Proof. unfold curv2d_step, term2, w_curv. cbv zeta. guard_cases; ring. Qed.
+Proof. unfold curv2d_step, term2, w_curv. cbv zeta. guard_cases; norm_trig n phi; ring. Qed.
 
 Lemma sum_terms_opp {X} (t : nat -> X -> R) l : forall n,
   sum_terms (fun n x => - t n x) n l = - sum_terms t n l.
@@ -59,7 +68,8 @@ Lemma curv2d_series radius phi l :
 Proof.
   unfold curv2d. cbv zeta.
   rewrite (fold_modes_sum _ (fun n ab => - (w_curv n * term2 phi n ab)) (curv2d_step_eq phi)).
-  rewrite (sum_terms_opp (fun n ab => w_curv n * term2 phi n ab)), series2_terms. reflexivity.
+  rewrite (sum_terms_opp (fun n ab => w_curv n * term2 phi n ab)), series2_terms.
+  try reflexivity; (f_equal; ring).
 Qed.
 
 Lemma sum_flat_sumsq l : sum_list (map (fun amp : R => amp ^ 2) (flat_amps l)) = sumsq l.
@@ -74,7 +84,7 @@ Lemma vol2d_closed radius l : vol2d radius l = PI * radius ^ 2 * (1 + sumsq l / 
 Proof. unfold vol2d. cbv zeta. rewrite sum_flat_sumsq. ring. Qed.
 
 Lemma set_vol2d_closed volume l : set_vol2d volume l = sqrt (volume / (PI * (1 + sumsq l / 2))).
-Proof. unfold set_vol2d. cbv zeta. rewrite sum_flat_sumsq. reflexivity. Qed.
+Proof. unfold set_vol2d. cbv zeta. rewrite sum_flat_sumsq. try reflexivity; (do 2 f_equal; ring). Qed.
 
 Lemma sumsq_nonneg l : 0 <= sumsq l.
 Proof. induction l as [|ab l IH]; simpl; [lra|]. nra. Qed.
@@ -99,14 +109,14 @@ Definition sumsq_w (w : nat -> R) (n : nat) (l : list (R * R)) : R :=
 
 Lemma perim_approx2d_closed radius l :
   perim_approx2d radius l = PI * radius * (4 + sumsq_w w_sq 1 l) / 2.
-Proof. unfold perim_approx2d. cbv zeta. rewrite (fold_modes_sum _ _ perim_step_eq). reflexivity. Qed.
+Proof. unfold perim_approx2d. cbv zeta. rewrite (fold_modes_sum _ _ perim_step_eq). unfold sumsq_w, Rdiv. ring. Qed.
 
 (* surface_area: the two accumulators are r/R0 and its phi-derivative *)
 Lemma line2d_step_eq phi n ab st :
   line2d_step phi n ab st = (fst st + w_one n * term2 phi n ab, snd st + w_one n * dterm2 phi n ab).
 Proof.
   unfold line2d_step, term2, dterm2, w_one. destruct st as [d dd]. cbv zeta. cbn [fst snd].
-  guard_cases; cbn [fst snd]; f_equal; ring.
+  guard_cases; cbn [fst snd]; norm_trig n phi; f_equal; ring.
 Qed.
 
 Lemma line2d_acc_series phi l :
@@ -150,7 +160,7 @@ Lemma curv3d_series radius Y l :
   curv3d radius Y l = 1 / radius + series3 h3d Y 1 l / radius.
 Proof.
   unfold curv3d. cbv zeta. rewrite (fold_modes_sum _ _ (curv3d_step_eq Y)), series3_terms.
-  rewrite Rplus_0_l. reflexivity.
+  unfold Rdiv. ring.
 Qed.
 
 Lemma curv3s_step_eq Y k a acc : curv3s_step Y k a acc = acc + a * h3s k * Y k.
@@ -160,7 +170,7 @@ Lemma curv3s_series radius Y l :
   curv3s radius Y l = 1 / radius + series3 h3s Y 1 l / radius.
 Proof.
   unfold curv3s. cbv zeta. rewrite (fold_modes_sum _ _ (curv3s_step_eq Y)), series3_terms.
-  rewrite Rplus_0_l. reflexivity.
+  unfold Rdiv. ring.
 Qed.
 
 (* the degree-1 modes (k = 1, 2, 3: translations) carry no first-order curvature; degree 2: h = 2 *)
